@@ -258,6 +258,14 @@ def translate(repo, only=None):
             raise Untranslatable('%s: exactly one lstsq(A, B, ...) expected' % fname)
         return f, calls[0]
 
+    def post_lstsq(f, name):
+        '''after the lstsq call: only an empty solution is an error; the solution rows are (zero, a, b)'''
+        stm = [ast.unparse(s_) for s_ in f.body if not (isinstance(s_, ast.Expr) and isinstance(s_.value, ast.Constant))]
+        tail = stm[-4:]
+        want = ["if x.size == 0:\n    raise np.linalg.LinAlgError('Optimizing returned empty result')", 'zero, a, b = x', 'return self.derive(zero=zero, a=a, b=b)']
+        if tail[-3:] != want:
+            raise Untranslatable('%s: statements after lstsq changed: %s' % (name, tail[-3:]))
+
     def t_weighted_optimize():
         f, call = lstsq_rows('Match.weighted_optimize', None)
         body = {}
@@ -273,6 +281,7 @@ def translate(repo, only=None):
                 raise Untranslatable('weighted_optimize: %s = %s' % (k, body.get(k)))
         if [ast.unparse(a) for a in call.args] != ['Aw', 'Bw']:
             raise Untranslatable('weighted_optimize: lstsq arguments')
+        post_lstsq(f, 'weighted_optimize')
         # row scale of both sides: sqrt(w)  ->  weight of the row in the sum of squares: (sqrt w)^2
         v = V({'w': Qv('w')})
         s = v.expr(ast.parse('np.sqrt(w)', mode='eval').body)
@@ -288,6 +297,7 @@ def translate(repo, only=None):
                 body[st.targets[0].id] = ast.unparse(st.value)
         if body.get('indices') != 'np.hstack([np.ones((len(self.indices), 1)), self.indices])' or [ast.unparse(a) for a in call.args] != ['indices', 'self.refineds']:
             raise Untranslatable('optimize: design / response changed')
+        post_lstsq(f, 'optimize')
         out.append('Definition gen_opt_weight (w : Q) : Q := 1.')
 
     def t_get_transformation():
